@@ -246,6 +246,18 @@ def gen_pipeline(ctx, exe, n):
     return [pc.line_of(pc.gen_case(ctx.rng, exceptions=(i % 2 == 1))) for i in range(n)], {'with_throwing_stage': n // 2}
 
 
+def gen_graph(ctx, exe, n):
+    """Graph / Subgraph programs of C30 (construction, edges, executors, clear + rebuild, whole-graph moves); dispenso::Graph only: BiPropGraph
+    programs run into C31's registered finding biprop-merge-stale-set, whose dangling set members are that finding's business"""
+    gc = importlib.import_module('graph_common')
+    lines = []
+    while len(lines) < n:
+        l = gc.gen_case(ctx.rng, 'exec', max_nodes=40)
+        if l.startswith('N '):
+            lines.append(l)
+    return lines, {'with_graph_move': sum(1 for l in lines if ' M ' in l or ' m ' in l)}
+
+
 def gen_timedtask(ctx, exe, n):
     C26 = importlib.import_module('C26')
     cases = [c for _, c, _, _, _ in C26.WITNESSES] + [C26.gen_case(ctx.rng) for _ in range(n - len(C26.WITNESSES))]
@@ -320,6 +332,7 @@ HARNESSES = [
     {'id': 3, 'name': 'h_opresult', 'lib': False, 'flags': ['-std=c++17'], 'leaks': True, 'ledger': ledger_opresult, 'gen': gen_opresult, 'n': (300, 2000), 'quick': True, 'owner': 'C40'},
     {'id': 4, 'name': 'h_oncefn', 'lib': True, 'flags': ['-Wl,--wrap=malloc', '-Wl,--wrap=free'], 'leaks': True, 'gen': gen_oncefn, 'n': (520, 2000), 'quick': True, 'owner': 'C39'},
     {'id': 11, 'name': 'h_timedtask', 'lib': True, 'flags': [], 'leaks': False, 'gen': gen_timedtask, 'n': (100, 800), 'quick': True, 'owner': 'C26'},
+    {'id': 12, 'name': 'h_graph', 'lib': True, 'flags': [], 'leaks': True, 'gen': gen_graph, 'n': (90, 600), 'quick': True, 'owner': 'C30/C31 (graph_common)'},
     {'id': 6, 'name': 'h_poolalloc', 'lib': True, 'flags': [], 'leaks': True, 'gen': gen_poolalloc, 'n': (300, 2000), 'quick': False, 'owner': 'C42'},
     {'id': 7, 'name': 'h_spsc', 'lib': False, 'flags': [], 'leaks': False, 'gen': gen_spsc, 'n': (120, 600), 'quick': False, 'owner': 'C35'},
     {'id': 8, 'name': 'h_mpmc', 'lib': False, 'flags': [], 'leaks': False, 'gen': gen_mpmc, 'n': (120, 600), 'quick': False, 'owner': 'C34'},
